@@ -152,10 +152,13 @@ CHECKS = {
              "announced total) and enumerates the option cross product of the KK, Z-HIT, DRT and fit entry points. Every enumerated "
              "configuration (sampled in the quick tier) is run for real on spectra of several sizes with every Progress call and "
              "callback notification recorded; specs/TraceProgress.tla validates all recorded traces against the counter machine in "
-             "one TLC run and accepts only outcomes the property allows (returned, refused up front, library error).",
+             "one TLC run and accepts only outcomes the property allows (returned, refused up front, library error). "
+             "specs/ProgressApi.tla models the whole public API of pyimpspec.progress (callback table with register / unregister, "
+             "one or two nested Progress objects); every behaviour up to the bound is replayed through the real module and the "
+             "notifications each registered callback received are compared with the model after every call.",
         design_ref="§4 C18",
         note="Configurations x sizes are finite samples of the input space (one mock spectrum family); size floors per entry point are frozen; KK/DRT step accounting is validated against the counter machine only, not re-derived.",
-        technique="TLA+ spec (Progress.tla, ProgressMC.tla) + TLC; spec->code drive of every option combination and code->spec batched trace validation (TraceProgress.tla)",
+        technique="TLA+ spec (Progress.tla, ProgressMC.tla, ProgressApi.tla) + TLC; spec->code drive of every option combination, code->spec batched trace validation (TraceProgress.tla), spec->code replay of every behaviour of the progress API",
     ),
     "C19": dict(
         text="specs/Cli.tla models the `parse` command as the DataSet actions it performs (low/high-pass filter, excluded indices, refusal "
